@@ -160,7 +160,7 @@ func c11DeleteObs(h *RetentionHandler, ctx context.Context, database, measuremen
 
 func VerifC11Policy() {
 	zz.ClockMonotone()
-	days := int(zz.OneOfInt64("retention_days", 0, 1, 30, 365))
+	days := int(zz.OneOfInt64("retention_days", 0, 1, 30, 365, 106751, 106752, 3650000))
 	buf := int(zz.OneOfInt64("buffer_days", 0, 1, 7))
 	var meas *string
 	if zz.Bool("has_measurement_filter") {
@@ -178,7 +178,6 @@ func VerifC11Policy() {
 	zz.Assert(err == nil && resp != nil, "ExecutePolicy failed without any fault")
 	first := zz.FirstNow()
 	last := zz.LastNow()
-	want := time.Duration(days+buf) * 24 * time.Hour
 	if meas != nil {
 		zz.Assert(len(c11Cutoffs) == 1, "measurement filter not honoured")
 	} else {
@@ -187,7 +186,10 @@ func VerifC11Policy() {
 	for _, c := range c11Cutoffs {
 		zz.Assert(c.Equal(c11Cutoffs[0]), "measurements of one run were processed with different cutoffs")
 		// the cutoff is (now - (retention+buffer) days) for a clock reading taken during the run
-		zz.Assert(!c.Before(first.Add(-want)) && !c.After(last.Add(-want)), "cutoff is not now - (retention_days + buffer_days)")
+		// (stated in calendar days on the UTC time line, so retention periods beyond the
+		// ~292 years a time.Duration can hold are covered too)
+		back := c.AddDate(0, 0, days+buf)
+		zz.Assert(!back.Before(first) && !back.After(last), "cutoff is not now - (retention_days + buffer_days)")
 	}
 	zz.Reach("end")
 }
